@@ -85,7 +85,11 @@ def gen_data_family(rng, n_roots=(1, 2)):
         if temporal and rng.chance(0.8 if n_time > 16 else 0.35):
             # a second numeric time descriptor whose values may repeat (concatenated epochs): usable for subset_time
             spec['time_desc']['onset'] = gen.gen_grouping(rng, n_time, kinds=('groups', 'unique', 'groups'), typ=rng.pick(['float', 'float', 'int']),
-                                                          fewdups=0.7 if n_time > 16 else 0.25)
+                                                          fewdups=0.7 if n_time > 16 else 0.25, huge_ok=False)      # (onsets are times, not identifiers)
+        if temporal and rng.chance(0.15):
+            # an integer identifier per time point (frame numbers of a long recording, beyond 2**53): carried along, never
+            # selected by
+            spec['time_desc']['tid'] = {'values': [9007199254740993 + 3 * t for t in tu], 'container': rng.pick(['list', 'array'])}
         roots.append(spec)
     return {'roots': roots}
 
@@ -441,6 +445,18 @@ class DataOps:
             if ab is not None:
                 listed = listed + [ab]             # a value no item carries selects nothing (whatever it would truncate to)
                 self.ctx.probe('absent_value_in_list')
+        empty_case = False
+        huge = any(isinstance(x, (int, np.integer)) and not isinstance(x, bool) and abs(int(x)) > 2 ** 52
+                   for v_ in obj.obs_descriptors.values() if np.asarray(v_, dtype=object).ndim == 1 for x in v_)
+        # (merging with an empty part returns integer labels as floats -- equal numbers, another type, not judged; identifiers
+        #  beyond 2**53 would not survive that, so such families are left out of this step: see DESIGN 9.7)
+        rowvalued = any(np.asarray(v_, dtype=object).ndim > 1 if not isinstance(v_, np.ndarray) else v_.ndim > 1 for v_ in obj.obs_descriptors.values())
+        if (axis == 'obs' and o['a'][4] % 33 == 0 and not huge and not rowvalued      # (row-valued descriptors: an empty part has none)
+                and len(listed) > len(chosen) + (1 if o['a'][3] % 4 == 0 else 0)):
+            # only the value nobody carries: a legal selection that matches nothing (an empty dataset with the same
+            # descriptors, which can be merged with others later without harming them)
+            listed, chosen = [listed[-1]], []
+            empty_case = True
         arg = chosen[0] if (len(chosen) == 1 and o['flag'] and len(listed) == 1) else (np.array(listed) if o['flag2'] else list(listed))
         guard = self.pool.plain_guard('subset_' + axis, value=arg)
         try:
@@ -448,6 +464,22 @@ class DataOps:
         except Exception as e:
             guard('raised')
             return self._raise('subset_' + axis, e)
+        if empty_case:
+            # the empty result is not kept for further operations; what matters is that it is empty and that merging it with
+            # its source gives the source's rows back with all their labels
+            guard()
+            if res.n_obs != 0 or np.asarray(res.measurements).shape[0] != 0:
+                self.pool.report('C11', 'dataset_twin.content', 'subset_obs:content:obs:absent-only',
+                                 f'subset_obs({by}, {listed}) with a value no row carries returned {res.n_obs} rows')
+                return
+            from rsatoolbox.data.ops import merge_datasets
+            try:
+                merged = merge_datasets([src.obj, res])
+            except Exception as e:
+                return self._raise('merge_datasets:with-empty-part', e)
+            self.ctx.probe('subset_matching_nothing_merged')
+            self._finish('merge', [(merged, None if src.sem is None else deepcopy(src.sem))], [src.sid], sig=('with-empty-part',))
+            return
         sem = None
         if src.sem is not None:
             sem = deepcopy(src.sem)
